@@ -126,6 +126,24 @@ Proof.
   cbn [vfold]. rewrite (vapply_quiet V e (Forall_inv H)). apply IH. exact (Forall_inv_tail H).
 Qed.
 
+(* what lies under the reference stack does not matter: its last block is never popped *)
+Lemma vfold_below E : forall l V V', vfold V l = Some V' -> vfold (V ++ E) l = Some (V' ++ E).
+Proof.
+  induction l as [|e l IH]; intros V V' H.
+  - injection H as <-. reflexivity.
+  - cbn [vfold] in H. destruct (vapply V e) as [V1|] eqn:E1; [|discriminate].
+    cbn [vfold]. assert (Hs : vapply (V ++ E) e = Some (V1 ++ E)); [|rewrite Hs; apply IH; exact H].
+    unfold vapply in *. destruct (estep e).
+    + destruct V as [|top V0]; [discriminate|]. cbn [app]. destruct (bparent (eblk e) =? bid top); [|discriminate].
+      injection E1 as <-. reflexivity.
+    + destruct V as [|top [|t2 V00]]; try discriminate. cbn [app]. destruct (bid (eblk e) =? bid top); [|discriminate].
+      injection E1 as <-. reflexivity.
+    + injection E1 as <-. reflexivity.
+    + injection E1 as <-. reflexivity.
+    + destruct V as [|top V0]; [discriminate|]. cbn [app]. destruct (bparent (eblk e) =? bid top); [|discriminate].
+      injection E1 as <-. reflexivity.
+Qed.
+
 (* pops: the blocks on top, newest first *)
 Lemma vfold_undos : forall evU rest,
   Forall (fun e => estep e = SUndo) evU -> rest <> [] ->
@@ -305,11 +323,11 @@ Section Rel.
   Qed.
 
   (* at the end: the reference consumer stands on the eventual tip; canon is a parent-linked run of the
-     universe ending with that tip and holding a block numbered `start` *)
+     universe ending with that tip and reaching down to `start` *)
   Lemma rel_final V J canon cpre hdF :
     Rel V J -> hd_error V = Some hdF ->
     canon = cpre ++ [hdF] -> Forall (fun x => In x U) canon -> (exists x, lnk x canon) ->
-    (exists b, In b canon /\ bnum b = start) ->
+    (exists b, In b canon /\ bnum b <= start) ->
     from_num start (rev J) = from_num start canon.
   Proof.
     intros (Hne & HcV & Halt) Hhd Hcan HcU [xc Hlc] (b0 & Hb0 & Hnb0).
